@@ -4,8 +4,8 @@ LEVEL = 'exploration'
 
 
 def run(rep):
-    rep.rule = ('every sequence of <= 2 (quick) / 3 (thorough) row groups over rows {0,1,2,3,7,1000} x bytes {0,1,5,4MiB-1,4MiB,4MiB+1,64MiB,64MiB+1,2^40}, cut into 1..3 '
-                'footer-only Parquet files in every way, x node counts {1,2,3,8,64} (quick) / 1..64 (thorough); oracle: per row group contiguous disjoint ranges from 0 summing to '
+    rep.rule = ('every sequence of <= 2 (quick) / 3 (thorough; length-3 sequences over the reduced kinds rows {0,1,1000} x bytes {0,4MiB-1,4MiB,4MiB+1,2^40}) row groups over rows {0,1,2,3,7,1000} x bytes {0,1,5,4MiB-1,4MiB,4MiB+1,64MiB,64MiB+1,2^40}, cut into 1..3 '
+                'footer-only Parquet files in every way, x node counts {1,2,3,8,64} (quick) / {1..12,16,31,32,64} (thorough); oracle: per row group contiguous disjoint ranges from 0 summing to '
                 'num_rows, no empty split, exact byte sum, canonical order, invariance under every file-list permutation and a second mount directory, digest changes under every '
                 'single-attribute edit (rename, rows+1, bytes+1, row-group index shift); non-trivial = at least 2 splits')
     rep.assumptions = ['footers forged with parquet::ParquetMetaDataWriter are read like real files (enumeration reads footers only)']
